@@ -58,13 +58,17 @@ from lib import stage
 from gen import scenario
 
 ID = "C11"
-LEAN_TARGETS = ["AiuVerif.Props.C11", "AiuVerif.Props.C11Parse"]
+LEAN_TARGETS = ["AiuVerif.Props.C11", "AiuVerif.Props.C11Parse", "AiuVerif.Props.C11Link"]
 THEOREMS = [
     # the compiler-log parser (Model/LogParse.lean)
     "AiuVerif.C11.parsed_tables_wellformed",
     "AiuVerif.C11.first_row_wins",
     "AiuVerif.C11.stops_at_autopilot",
     "AiuVerif.C11.outside_table_ignored",
+    # from the log text to the tables the utilization model starts from (Props/C11Link.lean)
+    "AiuVerif.C11.fold_rows_eq_util",
+    "AiuVerif.C11.rows_from_empty",
+    "AiuVerif.C11.single_table_parse",
     "AiuVerif.C11.pt_active_formula",
     "AiuVerif.C11.table_lookup_spec",
     "AiuVerif.C11.masked_name_lookup",
@@ -121,8 +125,10 @@ NOT_YET_PROVED = [
     "round(x, 4) of Frac_Time, Frac_Ideal, PT_Util, Ideal_Time (tolerance of the correspondence; theorems speak "
     "about the exact ratios)",
     "table parsing from text: modelled (Model/LogParse.lean, compared with the real parser on generated log texts; theorems "
-    "parsed_tables_wellformed, first_row_wins, stops_at_autopilot, outside_table_ignored), but no theorem links the parsed table to "
-    "the LogRow list the utilization model starts from; fingerprint matching is not modelled (single table assumed)",
+    "parsed_tables_wellformed, first_row_wins, stops_at_autopilot, outside_table_ignored; C11Link.single_table_parse + "
+    "rows_from_empty: a log with one table section yields exactly buildTable / buildCatMap of the rows of its body lines); what "
+    "stays unproved is the character-level statement that `rowOf` of a line WRITTEN for a LogRow gives that row back (compared on "
+    "generated texts); fingerprint matching is not modelled (single table assumed)",
     "row order of the CSV (pandas stable sort) is modelled and compared but no theorem is stated about it",
 ]
 LEVEL_TEXT = ("Lean theorems over an executable model of compute_utilization / make_utilization_event / "
